@@ -23,10 +23,34 @@ Theorem C13_handlers_do_not_read : forall cfg s c r c' e, handler_step cfg s c r
 Proof. exact c13_handlers_do_not_read. Qed.
 Print Assumptions C13_handlers_do_not_read.
 
+(* the handshake sees the client's first handshake byte; what the upgrade does to what is
+   running: the handlers in flight (and the rest of the StartTLS handler) keep the writer they
+   were given - their remaining writes are [HStaleWrite]s, writes to the raw socket *)
 Theorem C13_first_byte : forall cfg s c k rest inp, pc c = CInline k (HHandshake :: rest) -> input c = IHello :: inp ->
-  exists c', conn_step cfg s c = Some (c', ENone) /\ input c' = inp /\ pc c' = CInline k rest.
+  exists c', conn_step cfg s c = Some (c', ENone) /\ input c' = inp /\
+             pc c' = CInline k (stale_script rest) /\ hs c' = stale_hs (hs c).
 Proof. exact c13_first_byte. Qed.
 Print Assumptions C13_first_byte.
+
+(* every byte after the upgrade is TLS-protected when no handler of the connection was in
+   flight at the upgrade and the StartTLS handler writes nothing after its handshake: nothing
+   is staled, and every later handler is given the new writer *)
+Theorem C13_clean_upgrade : forall cfg s c k rest inp c' e,
+  pc c = CInline k (HHandshake :: rest) -> input c = IHello :: inp -> conn_step cfg s c = Some (c', e) ->
+  hs c = [] -> Forall (fun h => h <> HWrite) rest -> hs c' = [] /\ pc c' = CInline k rest.
+Proof. exact c13_clean_upgrade. Qed.
+Print Assumptions C13_clean_upgrade.
+
+(* at full strength ("every byte in both directions", whatever is in flight) the statement is
+   false of the current tree - known finding K5: Search, StartTLS, ClientHello, and the search
+   handler answers after the handshake: one frame delivered (the StartTLS response), then a
+   stale write, the client gives the connection up (eof), nothing more is delivered *)
+Theorem C13_late_writer_refuted :
+  exists s c c', run_labels fixed_cfg init late_writer_run = Some s /\ nth_error (conns s) 0 = Some c /\
+    pc c = CInline KStartTLS [] /\ hs c = [(1, [HStaleWrite])] /\ sent c = 1 /\
+    handler_step fixed_cfg s c 1 = Some (c', ENone) /\ eof c' = true /\ sent c' = 1.
+Proof. exact c13_late_writer_refuted. Qed.
+Print Assumptions C13_late_writer_refuted.
 
 Theorem C13_same_pipeline : forall cfg s i c, reachable cfg s -> conn_of s i c ->
   (forall r k, In (r, k) (started c) -> 1 <= r <= nread c) /\ increasing (map fst (started c)) /\
